@@ -83,6 +83,9 @@ var malformed = []string{
 	"setoption", "setoption name", "setoption name Hash value x", "setoption name Hash value -1", "setoption name Nope value 3", "setoption name Depth value 2",
 	"debug on", "ponderhit", "register later", "uci", "stop stop", strings.Repeat("a", 70000), "go " + strings.Repeat("depth 1 ", 3000),
 	"\x00\x00", "quit\x00", "position startpos moves é2e4", "go infinite infinite", "ucinewgame now",
+	// move tokens whose length in bytes and in characters differ
+	"position startpos moves e2é", "position startpos moves g1€", "position startpos moves e2e4 e7ü", "position startpos moves e2e4é", "position startpos moves éé",
+	"position startpos moves e2\u00e9\u00e9", "position startpos moves a2𝄞", "position fen é w - - 0 1", "go searchmoves e2é", "setoption name Hash value ４",
 }
 
 // c16Stale: a search that provably cannot have ended (parked at the gate) is superseded; nothing may be
@@ -846,7 +849,7 @@ func init() {
 		Level:       "exploration",
 		Race:        true,
 		Technique:   "runtime protocol monitor under the race detector: gate evaluator parks the search so that a superseded search provably has not ended, hook-point delays widen the hand-over windows between command loop, forwarder, timers and search; hostile and malformed command scripts; real binaries driven over pipes; goroutine-dump based leak and hang diagnosis",
-		Rule:        "stale: go on P1 parked inside its k-th evaluation, then isready / stop / position P2 / ucinewgame / position P2 + go (P1, P2 have opposite sides to move): every isready answered while searching, a superseded search never answered, position+go answered exactly once with a move of P2; hostile: 8-37 random commands from {isready, position, go (6 forms), stop, ucinewgame, setoption, 44 malformed or unknown lines incl. over-long, non-UTF8, missing/overflowing arguments} with random pauses, then the driver must still answer position startpos / go depth 1 exactly once, then quit or end of input (also in the middle of a search): output closes; afterwards no goroutine remains inside morlock code; hook policies none / yield / random sleeps / long sleeps at hand-over points; blackbox: the four binaries (race build) driven over pipes: uciok, readyok, one legal bestmove per go, exit 0 without panic or race report; distinct = distinct session transcripts; interleaving signatures = distinct rolling hashes of hook-point order",
+		Rule:        "stale: go on P1 parked inside its k-th evaluation, then isready / stop / position P2 / ucinewgame / position P2 + go (P1, P2 have opposite sides to move): every isready answered while searching, a superseded search never answered, position+go answered exactly once with a move of P2; hostile: 8-37 random commands from {isready, position, go (6 forms), stop, ucinewgame, setoption, 54 malformed or unknown lines incl. over-long, non-UTF8, multi-byte move tokens, missing/overflowing arguments} with random pauses, then the driver must still answer position startpos / go depth 1 exactly once, then quit or end of input (also in the middle of a search): output closes; afterwards no goroutine remains inside morlock code; hook policies none / yield / random sleeps / long sleeps at hand-over points; blackbox: the four binaries (race build) driven over pipes: uciok, readyok, one legal bestmove per go, exit 0 without panic or race report; distinct = distinct session transcripts; interleaving signatures = distinct rolling hashes of hook-point order",
 		Assumptions: []string{"an unanswered isready is reported after a 60 s watchdog together with a goroutine dump (operations take milliseconds)", "a gate is never held across Halt: the iter.halt.enter hook releases it"},
 		Setup:       validateOracle,
 		Timeout:     minutes(15, 120),
